@@ -213,10 +213,16 @@ func FillRules(helper *ssa.Function, callers []*ssa.Function, modelingPath strin
 		}
 		return res
 	}
-	for _, l := range loops {
-		// counted loop bounded by one of the int parameters
-		var bound *ssa.Parameter
-		var at ssa.Instruction
+	// fill events: a counted zero-fill bounded by one of the helper's int parameters, either a loop of the helper
+	// itself or a loop of a function literal of the helper bounded by the literal's own parameter, bound at each
+	// call of the literal
+	type fillEvent struct {
+		bound *ssa.Parameter
+		at    ssa.Instruction
+		in    *ssa.BasicBlock // where the fill happens in the helper (loop header / call block)
+	}
+	var events []fillEvent
+	countedBound := func(f *ssa.Function, l *ssau.Loop, among []*ssa.Parameter) (*ssa.Parameter, ssa.Instruction) {
 		for b := range l.Blocks {
 			if len(b.Instrs) == 0 {
 				continue
@@ -227,21 +233,86 @@ func FillRules(helper *ssa.Function, callers []*ssa.Function, modelingPath strin
 			}
 			if cmp, ok := ifi.Cond.(*ssa.BinOp); ok {
 				for _, v := range []ssa.Value{cmp.X, cmp.Y} {
-					if p, ok := v.(*ssa.Parameter); ok && (p == ints[0] || p == ints[1]) {
-						bound = p
-						at = ifi
+					if p, ok := v.(*ssa.Parameter); ok {
+						for _, q := range among {
+							if p == q {
+								return p, ifi
+							}
+						}
 					}
 				}
 			}
 		}
-		if bound == nil {
-			continue
+		return nil, nil
+	}
+	loopAppends := func(l *ssau.Loop) bool {
+		for b := range l.Blocks {
+			for _, in := range b.Instrs {
+				if c, ok := in.(*ssa.Call); ok && ssau.Builtin(c) == "append" {
+					return true
+				}
+			}
 		}
+		return false
+	}
+	for _, l := range loops {
+		if bound, at := countedBound(helper, l, ints); bound != nil {
+			events = append(events, fillEvent{bound, at, l.Header})
+		}
+	}
+	for _, lit := range helper.AnonFuncs {
+		var litInts []*ssa.Parameter
+		for _, p := range lit.Params {
+			if b, ok := p.Type().Underlying().(*types.Basic); ok && b.Kind() == types.Int {
+				litInts = append(litInts, p)
+			}
+		}
+		for _, l := range ssau.Loops(lit) {
+			lp, _ := countedBound(lit, l, litInts)
+			if lp == nil || !loopAppends(l) {
+				continue
+			}
+			idx := -1
+			for i, q := range lit.Params {
+				if q == lp {
+					idx = i
+				}
+			}
+			ssau.AllInstrs(helper, func(in ssa.Instruction) {
+				call, ok := in.(*ssa.Call)
+				if !ok || idx < 0 || idx >= len(call.Call.Args) {
+					return
+				}
+				callee := call.Call.StaticCallee()
+				if callee != lit {
+					if mc, ok := call.Call.Value.(*ssa.MakeClosure); !ok || mc.Fn != lit {
+						return
+					}
+				}
+				var bp *ssa.Parameter
+				if ap, ok := call.Call.Args[idx].(*ssa.Parameter); ok && (ap == ints[0] || ap == ints[1]) {
+					bp = ap
+				}
+				if bp == nil {
+					out = append(out, FillSite{Fn: helper, At: call, OK: false, Detail: "zero-fill through " + lit.Name() + " runs " + call.Call.Args[idx].Name() + " times, which is not one of the two vertex counts", Rule: "FILL-1"})
+					return
+				}
+				events = append(events, fillEvent{bp, call, call.Block()})
+			})
+		}
+	}
+	for _, ev := range events {
+		bound, at := ev.bound, ev.at
 		// innermost enclosing range-over-parameter loop
 		var outer *ssa.Parameter
 		best := 1 << 30
 		for _, ol := range loops {
-			if ol == l || !ol.Blocks[l.Header] {
+			if ol.Header == ev.in && ol.Blocks[ev.in] {
+				if _, isIf := at.(*ssa.If); isIf {
+					continue // the counted loop itself
+				}
+			}
+			if !ol.Blocks[ev.in] {
 				continue
 			}
 			if p := rangeOf(ol); p != nil && len(ol.Blocks) < best {
